@@ -75,7 +75,9 @@ fn row_id(i: u64) -> RowId {
 
 impl C05 {
     fn dah(&self) -> DataAvailabilityHeader {
-        DataAvailabilityHeader::new_unchecked(self.roots.clone(), self.roots.clone())
+        // column roots are deliberately unrelated to the row roots: a verifier that looks at the wrong axis must fail
+        let cols = vec![NamespacedHash::from_raw(&[0xAB; 90]).unwrap(); self.roots.len()];
+        DataAvailabilityHeader::new_unchecked(self.roots.clone(), cols)
     }
 
     fn gen_for_row(&mut self, rng: &mut Rng, w: usize, i: usize, heavy: bool, out: &mut Emitter) {
